@@ -437,13 +437,18 @@ func (self *Fork) updateId(id ForkId) {
 	}
 	// If we updated the path, we should load stage defs and create chunks.
 	if self.path != oldPath {
-		if err := self.split_metadata.ReadInto(StageDefsFile, &self.stageDefs); err == nil {
+		if err := self.split_metadata.ReadInto(StageDefsFile, &self.stageDefs); err == nil &&
+			self.stageDefs != nil {
 			width := util.WidthForInt(len(self.stageDefs.ChunkDefs))
 			self.chunks = make([]*Chunk, 0, len(self.stageDefs.ChunkDefs))
 			for i, chunkDef := range self.stageDefs.ChunkDefs {
 				chunk := NewChunk(self, i, chunkDef, width)
 				self.chunks = append(self.chunks, chunk)
 			}
+		}
+		if self.stageDefs == nil {
+			// The file held the JSON value null.
+			self.stageDefs = new(StageDefs)
 		}
 	}
 }
@@ -1067,6 +1072,11 @@ func (self *Fork) doChunks(state MetadataState, getBindings func() MarshalerMap)
 Error: %s
 Chunk count: %d`,
 				errstring, len(self.stageDefs.ChunkDefs)))
+		} else if self.stageDefs == nil {
+			// The file held the JSON value null.
+			self.stageDefs = new(StageDefs)
+			self.split_metadata.WriteErrorString(
+				`The split method did not return a dictionary {"chunks": [{}], "join": {}}.`)
 		} else if len(self.stageDefs.ChunkDefs) == 0 {
 			// Skip the chunk phase.
 			state = Complete.Prefixed(ChunksPrefix)
